@@ -385,7 +385,9 @@ def mass_mod_text(kinds=('num', 'formula', 'unimod', 'glycan'), gt_ok=True, chno
     tagged = st.tuples(base, tag_text()).map(''.join)
     alt_info_last = base.map(lambda s: s + '|INFO:note')
     alt_info_first = base.map(lambda s: 'INFO:x|' + s)
-    return st.one_of(base, base, base, tagged, alt_info_last, alt_info_first, tag_text())
+    # two resolvable alternatives: the first one counts (for the mass and for the composition / residual alike)
+    alt_two = st.tuples(base, base).map('|'.join)
+    return st.one_of(base, base, base, tagged, alt_info_last, alt_info_first, tag_text(), alt_two)
 
 
 def mass_mod(kinds=('num', 'formula', 'unimod', 'glycan'), max_mult=3, **kw):
